@@ -361,6 +361,12 @@ fn drop_by_unwinding<G>(g: G) {
     }));
 }
 
+/// a hand-written function returning a boxed future, instrumented with `#[trace]`
+#[fastrace::trace(name = "traced-boxed-fn")]
+pub fn traced_boxed(inner: crate::adapters::ScriptedFuture) -> std::pin::Pin<Box<dyn std::future::Future<Output = u32> + Send>> {
+    Box::pin(async move { inner.await })
+}
+
 fn tid(tc: u8, tr: u64, uniq: u32) -> u128 {
     match tc {
         0 => uniq as u128 + 1,
@@ -439,7 +445,7 @@ impl VtCtx {
     }
 
     /// run a library call, recording a panic instead of unwinding through the interpreter
-    fn guarded<R>(&mut self, what: &str, f: impl FnOnce(&mut Self) -> R) -> Option<R> {
+    pub(crate) fn guarded<R>(&mut self, what: &str, f: impl FnOnce(&mut Self) -> R) -> Option<R> {
         match catch_unwind(AssertUnwindSafe(|| f(self))) {
             Ok(r) => Some(r),
             Err(p) => {
@@ -486,7 +492,7 @@ impl VtCtx {
     }
 
     /// token of the thread's current local context (what enter_with_local_parent would get)
-    fn local_token(w: &World, vt: usize) -> Option<Vec<MItem>> {
+    pub(crate) fn local_token(w: &World, vt: usize) -> Option<Vec<MItem>> {
         let sc = Self::top_scope(w, vt)?;
         let scope = &w.h.scopes[sc];
         match &scope.kind {
@@ -612,7 +618,7 @@ impl VtCtx {
         idx
     }
 
-    fn blank_span(&self, name: String, how: &'static str) -> MSpan {
+    pub(crate) fn blank_span(&self, name: String, how: &'static str) -> MSpan {
         MSpan {
             name,
             noop: false,
@@ -721,10 +727,18 @@ impl VtCtx {
                 .iter()
                 .map(|i| &taken.iter().find(|(j, _)| j == i).unwrap().1)
                 .collect();
-            let sp = if refs.len() == 1 {
+            // the parents are `impl IntoIterator<Item = &Span>`: a vector, or lazy iterators whose
+            // size hints say little about what they yield (a huge or absent upper bound, lower 0)
+            let shape = (s.l as usize + s.c as usize + refs.len()) % 5;
+            let sp = if refs.len() == 1 && shape < 3 {
                 Span::enter_with_parent(n2, refs[0])
             } else {
-                Span::enter_with_parents(n2, refs)
+                match shape {
+                    0 | 1 => Span::enter_with_parents(n2, refs),
+                    2 => Span::enter_with_parents(n2, (0..usize::MAX).map_while(|i| refs.get(i).copied())),
+                    3 => Span::enter_with_parents(n2, std::iter::repeat(()).take(usize::MAX).enumerate().map_while(|(i, _)| refs.get(i).copied())),
+                    _ => Span::enter_with_parents(n2, std::iter::successors(Some(0usize), |i| Some(i + 1)).map_while(|i| refs.get(i).copied())),
+                }
             };
             Self::apply_props(sp, &p2, &mut hit)
         });
@@ -848,6 +862,10 @@ impl VtCtx {
     }
 
     pub fn op_enter_local(&mut self, np: u8, s: StrSeed, probe: bool, via: &'static str) {
+        self.op_enter_local_re(np, s, probe, via, &[])
+    }
+
+    pub fn op_enter_local_re(&mut self, np: u8, s: StrSeed, probe: bool, via: &'static str, re: &[Mini]) {
         if probe {
             self.op_probe();
         }
@@ -856,7 +874,52 @@ impl VtCtx {
             w.tick();
             (w.name(s), w.props(s, np))
         };
-        self.enter_local_named(name, props, via);
+        if re.is_empty() || props.is_empty() || self.reentrant_depth > 0 {
+            self.enter_local_named(name, props, via);
+        } else {
+            self.enter_local_reentrant(name, props, via, re);
+        }
+    }
+
+    /// `LocalSpan::enter_with_local_parent(name).with_properties(closure)` where the closure uses
+    /// the tracing API itself: the span is entered (and modelled) first, the closure's calls run
+    /// inside it, then its properties are attached to it
+    fn enter_local_reentrant(&mut self, name: String, props: Vec<(String, String)>, via: &'static str, re: &[Mini]) {
+        let before = self.guards.len();
+        self.enter_local_named(name, vec![], via);
+        if self.guards.len() != before + 1 {
+            return;
+        }
+        let Some(Guard::Local(l, li)) = self.guards.pop() else { unreachable!() };
+        // the guard stays off the stack while the closure runs: it cannot be popped by the
+        // closure's own operations (they work above their own floor)
+        let t0 = self.w().tick();
+        let p2 = props.clone();
+        let mut hit = false;
+        let l2 = self.guarded("LocalSpan::with_properties", |me| {
+            l.with_properties(|| {
+                hit = true;
+                me.run_re(re);
+                p2
+            })
+        });
+        let mut w = self.w();
+        let t1 = w.tick();
+        let vt = self.id;
+        w.h.closures.push(ClosureCall { api: "LocalSpan::with_properties", recording: li.is_some(), invoked: hit, t: t1 });
+        if let (Some(li), true) = (li, l2.is_some()) {
+            let sc = w.h.locals[li].scope;
+            w.h.atts.push(MAtt { kind: AKind::Props(props), target: ARef::Local(li), route: Route::Creation, vt, t: (t0, t1), scope: Some(sc), b0: 0, b1: 0 });
+        }
+        drop(w);
+        match l2 {
+            Some(l2) => self.guards.push(Guard::Local(l2, li)),
+            None => {
+                // the closure panicked: the span was dropped by the unwinding
+                let f = self.now();
+                self.close_local_model(li, f, f);
+            }
+        }
     }
 
     pub fn enter_local_named(&mut self, name: String, props: Vec<(String, String)>, via: &'static str) -> Option<usize> {
@@ -1105,12 +1168,18 @@ impl VtCtx {
         let _ = early;
         if let Some(set) = set {
             let empty = w.h.scopes[sc].count == 0;
+            // what the collector scope recorded, as the set itself tells (a pure conversion)
+            let recs = catch_unwind(AssertUnwindSafe(|| set.to_span_records(SpanContext::new(TraceId(1), SpanId(1))))).unwrap_or_default();
+            let snapshot: Vec<String> = recs.iter().map(|r| r.name.to_string()).collect();
+            let snapshot_events: Vec<String> = recs.iter().flat_map(|r| r.events.iter().map(|e| e.name.to_string())).collect();
             w.h.sets.push(MSet {
                 scope: sc,
                 b0,
                 b1,
                 t: t1,
                 empty,
+                snapshot,
+                snapshot_events,
             });
             w.sets.push(Some(set));
             let si = w.h.sets.len() - 1;
@@ -2281,7 +2350,7 @@ impl VtCtx {
                 self.op_child_of_local(*np, *s, "child_of_local");
             }
             Op::SetLocalParent { span, probe } => self.op_set_local_parent(*span, *probe),
-            Op::EnterLocal { np, s, probe } => self.op_enter_local(*np, *s, *probe, "op"),
+            Op::EnterLocal { np, s, probe, re } => self.op_enter_local_re(*np, *s, *probe, "op", re),
             Op::CollectorStart { probe } => self.op_collector_start(*probe),
             Op::PopGuard { collect, early, unwind } => {
                 let had = self.guards.len() > self.floor;
